@@ -369,6 +369,23 @@ theorem parseVwscFile_unwrapped (f : ScoreFile) (h : f.Valid) (trailing : Bytes)
   show pySlice (S ++ trailing) ((0 : Nat) : Int) ((S.length : Nat) : Int) = S
   rw [pySlice_nat]; exact slice_append_left S trailing _ rfl
 
+/-- the wrapper block, given what its fixed words and the two words of the inner block read as -/
+theorem skipWrapper_eq (W : Bytes) (T : Nat) (k n : Nat) (u1 nm last : Int)
+    (hTT : ¬ (((W.length : Nat) : Int) ≠ (T : Int)))
+    (r8 : getS .be 4 W 8 = .ok u1) (r12 : getS .be 4 W 12 = .ok nm) (r16 : getS .be 4 W 16 = .ok ((k : Nat) : Int)) (r20 : getS .be 4 W 20 = .ok last)
+    (q0 : getSI W 4 ((24 : Int) + ((k : Nat) : Int) * 4) = .ok ((n : Nat) : Int))
+    (q4 : getSI W 4 ((24 : Int) + ((k : Nat) : Int) * 4 + 4) = .ok 0x14) :
+    skipWrapper W (T : Int) = .ok ((24 : Int) + ((k : Nat) : Int) * 4 + 8, ((n : Nat) : Int), 0x14) := by
+  unfold skipWrapper
+  rw [if_neg hTT]
+  simp only [bind, Except.bind, pure, Except.pure]
+  rw [r8]; simp only []
+  rw [r12]; simp only []
+  rw [r16]; simp only []
+  rw [r20]; simp only []
+  rw [q0]; simp only []
+  rw [q4]
+
 /-- the wrapper of DIR files is skipped, whatever its marker table and trailing bytes are -/
 theorem parseVwscFile_wrapped (f : ScoreFile) (h : f.Valid) (w : Wrapper) (hw : w.Valid (serialise f)) :
     parseVwscFile (wrap w (serialise f)) = parseVwsc (serialise f) := by
@@ -438,7 +455,7 @@ theorem parseVwscFile_wrapped (f : ScoreFile) (h : f.Valid) (w : Wrapper) (hw : 
     rw [this]; exact g
   have hTT : ¬ (((W.length : Nat) : Int) ≠ (T : Int)) := by rw [hWlen]; simp
   have hskip : skipWrapper W (T : Int) = .ok ((24 : Int) + ((w.markers.length : Nat) : Int) * 4 + 8, ((20 + (encRecs f.recs).length : Nat) : Int), 0x14) := by
-    simp only [skipWrapper, hTT, r8, r12, r16, r20, q0, q4, bind, Except.bind, pure, Except.pure, if_false]
+    exact skipWrapper_eq W T _ _ _ _ _ hTT r8 r12 r16 r20 q0 q4
   simp only [parseVwscFile, r0, r4, hm14, hskip, bind, Except.bind, ne_eq, not_false_eq_true, if_true, not_true_eq_false, if_false]
   congr 1
   have e1 : (24 : Int) + ((w.markers.length : Nat) : Int) * 4 + 8 - 8 = ((P.length : Nat) : Int) := by rw [← hidx]; omega
